@@ -3,7 +3,7 @@
    proofs as in the C01 package, Sem/LibProofs.v).  Methods with callbacks: the two programs apply
    closures with different fuel and the optimized one may be inexact where the other is exact, so
    the combinators are related in the weaker sense [wrel], for decided left-hand sides. *)
-From P2 Require Import Base.Prelude Base.PreludeProofs Sem.Num Sem.Syntax Sem.Ops Sem.Lib Sem.Ref Sem.Gen Sem.Sim Sem.RelProofs Sem.Opt Sem.OptRel Sem.OptRelProofs Sem.OptOpsProofs.
+From P2 Require Import Base.Prelude Base.PreludeProofs Sem.Num Sem.Syntax Sem.Ops Sem.Lib Sem.Ref Sem.Gen Sem.Sim Sem.RelProofs Sem.Opt Sem.OptRel Sem.OptRelProofs Sem.OptOpsProofs Sem.LibDataProofs.
 Require Import Lia.
 Local Open Scope Z_scope.
 
@@ -188,6 +188,96 @@ Proof.
     inv Hy; try (rr; constructor). destruct b; [rr; constructor; auto|apply IH; auto].
 Qed.
 
+Lemma mapargs_app_w f f' a a' :
+  vrel f f' -> Forall2 (Forall2 vrel) a a' -> decided (mapargs_app app1 f a) ->
+  wrel (Forall2 vrel) (mapargs_app app1 f a) (mapargs_app app2 f' a').
+Proof.
+  intros Hf Ha. induction Ha as [|x x' a a' Hx Ha IH]; cbn [mapargs_app]; intros D.
+  - rr. repeat constructor.
+  - eapply wrel_bind; [exact D|intros; apply Happ; auto|]. intros y y' _ Hy D2.
+    eapply wrel_bind; [exact D2|intros; apply IH; auto|]. intros ys ys' _ Hys _.
+    rr. repeat constructor; auto.
+Qed.
+
+Lemma compact_app_w f f' l l' :
+  vrel f f' -> Forall2 vrel l l' -> forall last last', vrel last last' ->
+  decided (compact_app app1 f last l) ->
+  wrel (Forall2 vrel) (compact_app app1 f last l) (compact_app app2 f' last' l').
+Proof.
+  intros Hf Hl. induction Hl as [|x x' l l' Hx Hl IH]; intros last last' Hlast; cbn [compact_app]; intros D.
+  - rr. repeat constructor.
+  - eapply wrel_bind; [exact D|intros; apply Happ; auto|]. intros y y' _ Hy D2.
+    inv Hy; try (rr; constructor). destruct b; [apply IH; auto|].
+    eapply wrel_bind; [exact D2|intros; apply IH; auto|]. intros ys ys' _ Hys _.
+    rr. repeat constructor; auto.
+Qed.
+
+Lemma scan_app_w three f f' l l' :
+  vrel f f' -> Forall2 vrel l l' -> forall li li' la la', vrel li li' -> vrel la la' ->
+  decided (scan_app app1 three f li la l) ->
+  wrel (Forall2 vrel) (scan_app app1 three f li la l) (scan_app app2 three f' li' la' l').
+Proof.
+  intros Hf Hl. induction Hl as [|x x' l l' Hx Hl IH]; intros li li' la la' Hli Hla; cbn [scan_app]; intros D.
+  - rr. repeat constructor.
+  - eapply wrel_bind; [exact D|intros; apply Happ; auto; destruct three; repeat constructor; auto|].
+    intros o o' _ Ho D2.
+    eapply wrel_bind; [exact D2|intros; apply IH; auto|]. intros ys ys' _ Hys _.
+    rr. repeat constructor; auto.
+Qed.
+
+Lemma iir_app_w three ini ini' f f' l l' :
+  vrel ini ini' -> vrel f f' -> Forall2 vrel l l' -> decided (iir_app app1 three ini f l) ->
+  wrel (Forall2 vrel) (iir_app app1 three ini f l) (iir_app app2 three ini' f' l').
+Proof.
+  intros Hi Hf Hl. destruct Hl as [|x x' l l' Hx Hl]; cbn [iir_app]; intros D.
+  - rr. repeat constructor.
+  - eapply wrel_bind; [exact D|intros; apply Happ; auto|]. intros o o' _ Ho D2.
+    eapply wrel_bind; [exact D2|intros; apply scan_app_w; auto|]. intros ys ys' _ Hys _.
+    rr. repeat constructor; auto.
+Qed.
+
+Lemma merge_app_w f f' l1 l1' :
+  vrel f f' -> Forall2 vrel l1 l1' -> forall l2 l2', Forall2 vrel l2 l2' ->
+  decided (merge_app app1 f l1 l2) ->
+  wrel (Forall2 vrel) (merge_app app1 f l1 l2) (merge_app app2 f' l1' l2').
+Proof.
+  intros Hf H1. induction H1 as [|a a' l1 l1' Ha H1 IH1]; intros l2 l2' H2.
+  - intros _. rr. destruct H2; cbn [merge_app]; repeat constructor; auto.
+  - induction H2 as [|b b' l2 l2' Hb H2 IH2]; cbn [merge_app]; intros D.
+    + rr. repeat constructor; auto.
+    + eapply wrel_bind; [exact D|intros; apply Happ; auto|]. intros y y' _ Hy D2.
+      inv Hy; try (rr; constructor). destruct b0.
+      * eapply wrel_bind; [exact D2|intros; apply IH1; auto|]. intros ys ys' _ Hys _.
+        rr. repeat constructor; auto.
+      * eapply wrel_bind; [exact D2|intros; apply IH2; auto|]. intros ys ys' _ Hys _.
+        rr. repeat constructor; auto.
+Qed.
+
+Lemma minmax_map_rel mn mn' mx mx' mni mni' mxi mxi' b :
+  vrel mn mn' -> vrel mx mx' -> vrel mni mni' -> vrel mxi mxi' ->
+  vrel (minmax_map mn mx mni mxi b) (minmax_map mn' mx' mni' mxi' b).
+Proof.
+  intros. unfold minmax_map. apply vr_map.
+  repeat (apply Forall2_cons; [split; cbn; auto; apply vr_bool|]). apply Forall2_nil.
+Qed.
+
+Lemma minmax_app_w f f' l l' :
+  vrel f f' -> Forall2 vrel l l' ->
+  forall mn mn' mx mx' mni mni' mxi mxi',
+  vrel mn mn' -> vrel mx mx' -> vrel mni mni' -> vrel mxi mxi' ->
+  decided (minmax_app app1 f mn mx mni mxi l) ->
+  wrel vrel (minmax_app app1 f mn mx mni mxi l) (minmax_app app2 f' mn' mx' mni' mxi' l').
+Proof.
+  intros Hf Hl. induction Hl as [|x x' l l' Hx Hl IH]; intros mn mn' mx mx' mni mni' mxi mxi' H1 H2 H3 H4;
+    cbn [minmax_app]; intros D.
+  - rr. constructor. apply minmax_map_rel; auto.
+  - eapply wrel_bind; [exact D|intros; apply Happ; auto|]. intros k k' _ Hk D2.
+    rewrite (vless_rel _ _ _ _ Hk H1), (vless_rel _ _ _ _ H2 Hk) in *.
+    destruct (vless k' mn') as [le| | | |]; cbn [bind] in *; try (rr; constructor).
+    destruct (vless mx' k') as [gr| | | |]; cbn [bind] in *; try (rr; constructor).
+    apply IH; auto; [destruct le|destruct gr|destruct le|destruct gr]; auto.
+Qed.
+
 Ltac callback H Hl :=
   let Hv := fresh "Hv" in let Hr := fresh "Hr" in
   destruct H as [|? ? ? ? Hv Hr]; [intros _; rr; constructor|];
@@ -240,6 +330,71 @@ Proof.
   destruct (str_eqb mname n_present).
   { callback H Hl. intros D. eapply wrel_bind; [exact D|intros; apply index_where_w; auto|].
     intros ? ? _ -> _. rr. repeat constructor. }
+  destruct (str_eqb mname n_single).
+  { rr. destruct Hl as [|e e' l l' Hx Hl]; [constructor|]. destruct Hl; constructor; auto. }
+  destruct (str_eqb mname n_min). { rr. destruct Hl; [constructor|]. apply pick_min_rel; auto. }
+  destruct (str_eqb mname n_max). { rr. destruct Hl; [constructor|]. apply pick_max_rel; auto. }
+  destruct (str_eqb mname n_mean).
+  { rr. rewrite (Forall2_length' _ _ _ Hl). destruct Hl; [constructor|].
+    eapply rrel_bind; [apply fold_calc_rel; auto|]. intros s s' Hs. apply calc_rel; auto. constructor. }
+  destruct (str_eqb mname n_minMax).
+  { callback H Hl. destruct Hl as [|e e' l l' Hx Hl]; intros D.
+    - rr. constructor. apply minmax_map_rel; constructor.
+    - eapply wrel_bind; [exact D|intros; apply Happ; auto|]. intros k k' _ Hk D2. apply minmax_app_w; auto. }
+  destruct (str_eqb mname n_number).
+  { callback H Hl. intros D.
+    eapply wrel_bind; [exact D|intros; apply mapargs_app_w; auto; apply number_args_rel; auto; constructor|].
+    intros; rr; repeat constructor; auto. }
+  destruct (str_eqb mname n_compact).
+  { callback H Hl. destruct Hl as [|e e' l l' Hx Hl]; intros D; [rr; repeat constructor|].
+    eapply wrel_bind; [exact D|intros; apply compact_app_w; auto|]. intros; rr; repeat constructor; auto. }
+  destruct (str_eqb mname n_combine).
+  { callback H Hl. intros D.
+    eapply wrel_bind; [exact D|intros; apply mapargs_app_w; auto|intros; rr; repeat constructor; auto].
+    destruct Hl; [constructor|]. apply pair_args_rel; auto. }
+  destruct (str_eqb mname n_combine3).
+  { callback H Hl. intros D.
+    eapply wrel_bind; [exact D|intros; apply mapargs_app_w; auto|intros; rr; repeat constructor; auto].
+    destruct Hl as [|e e' l l' Hx Hl]; [constructor|]. destruct Hl; [constructor|].
+    apply triple_args_rel; auto. }
+  destruct (str_eqb mname n_combineN).
+  { destruct H as [|v v' r r' Hv Hr]; [intros _; rr; constructor|].
+    destruct Hr as [|w w' r r' Hw Hr2]; [inv Hv; intros _; rr; constructor|].
+    destruct Hr2; inv Hv; try (intros _; rr; cbn; constructor; fail).
+    destruct (z <? 1); [intros _; rr; constructor|].
+    rewrite (is_func_rel _ _ _ Hw). destruct (is_func w' 1); [|intros _; rr; constructor].
+    destruct (100000 <? z); [intros _; rr; constructor|]. intros D.
+    eapply wrel_bind; [exact D|intros; apply mapargs_app_w; auto|intros; rr; repeat constructor; auto].
+    apply windows_rel; auto. intros; constructor; auto. }
+  destruct (str_eqb mname n_iir).
+  { destruct H as [|v v' r r' Hv Hr]; [intros _; rr; constructor|].
+    destruct Hr as [|w w' r r' Hw Hr2]; [intros _; rr; constructor|].
+    destruct Hr2; [|intros _; rr; constructor].
+    rewrite (is_func_rel _ _ _ Hv). destruct (is_func v' 1); [|intros _; rr; constructor].
+    rewrite (is_func_rel _ _ _ Hw). destruct (is_func w' 2); [|intros _; rr; constructor]. intros D.
+    eapply wrel_bind; [exact D|intros; apply iir_app_w; auto|intros; rr; repeat constructor; auto]. }
+  destruct (str_eqb mname n_iirCombine).
+  { destruct H as [|v v' r r' Hv Hr]; [intros _; rr; constructor|].
+    destruct Hr as [|w w' r r' Hw Hr2]; [intros _; rr; constructor|].
+    destruct Hr2; [|intros _; rr; constructor].
+    rewrite (is_func_rel _ _ _ Hv). destruct (is_func v' 1); [|intros _; rr; constructor].
+    rewrite (is_func_rel _ _ _ Hw). destruct (is_func w' 3); [|intros _; rr; constructor]. intros D.
+    eapply wrel_bind; [exact D|intros; apply iir_app_w; auto|intros; rr; repeat constructor; auto]. }
+  destruct (str_eqb mname n_cross).
+  { destruct H as [|v v' r r' Hv Hr]; [intros _; rr; constructor|].
+    destruct Hr as [|w w' r r' Hw Hr2]; [intros _; rr; constructor|].
+    destruct Hr2; [|intros _; rr; constructor].
+    rewrite (is_func_rel _ _ _ Hw). destruct (is_func w' 2); [|intros _; rr; constructor].
+    inv Hv; try (intros _; rr; constructor). intros D.
+    eapply wrel_bind; [exact D|intros; apply mapargs_app_w; auto|intros; rr; repeat constructor; auto].
+    apply cross_args_rel; auto. }
+  destruct (str_eqb mname n_merge).
+  { destruct H as [|v v' r r' Hv Hr]; [intros _; rr; constructor|].
+    destruct Hr as [|w w' r r' Hw Hr2]; [intros _; rr; constructor|].
+    destruct Hr2; [|intros _; rr; constructor].
+    rewrite (is_func_rel _ _ _ Hw). destruct (is_func w' 2); [|intros _; rr; constructor].
+    inv Hv; try (intros _; rr; constructor). intros D.
+    eapply wrel_bind; [exact D|intros; apply merge_app_w; auto|intros; rr; repeat constructor; auto]. }
   rr. constructor.
 Qed.
 
